@@ -96,6 +96,7 @@ type RunResult struct {
 	UnknownBr   int
 	Truncated   bool
 	AccessLogs  []*AccessLog
+	Retried     string
 }
 
 func (ex *Exec) init(pr *Program, p *Path, cfg *RunConfig) {
